@@ -475,6 +475,40 @@ func cmpkWhereClass(r *cmpkRec, kind string, sv *big.Rat, text string, op string
 	return "other"
 }
 
+// witness class of an unsound range-index skip
+func cmpkRangeClass(kind string, sv *big.Rat, text string) string {
+	lv, lf, isInt := cmpkLitVal(text)
+	_ = lf
+	switch kind {
+	case "int":
+		if _, err := strconv.ParseInt(text, 10, 64); err != nil && cmpkAbs(sv).Cmp(cmpkTwo53) > 0 {
+			return "int-range-beyond-2^53-float-fallback"
+		}
+	case "uint":
+		if _, err := strconv.ParseUint(text, 10, 64); err != nil && cmpkAbs(sv).Cmp(cmpkTwo53) > 0 {
+			return "int-range-beyond-2^53-float-fallback"
+		}
+	case "float":
+		if isInt && cmpkAbs(lv).Cmp(cmpkTwo53) > 0 {
+			return "float-range-vs-int-literal-beyond-2^53"
+		}
+	}
+	return "other"
+}
+
+// short exact rendering of a value for messages
+func cmpkShow(v *big.Rat) string {
+	if v == nil {
+		return "-"
+	}
+	s := v.RatString()
+	if len(s) > 48 {
+		f, _ := v.Float64()
+		return strconv.FormatFloat(f, 'g', -1, 64) + " (float64)"
+	}
+	return s
+}
+
 func cmpkAsciiFold(a, b []byte) bool {
 	if len(a) != len(b) {
 		return false
@@ -574,10 +608,7 @@ func execCmpkCmp(a []string) Result {
 		want = cmpkByValue(op, sv, lv)
 		res.Nontrivial = true
 	}
-	svs := "-"
-	if sv != nil {
-		svs = sv.RatString()
-	}
+	svs := cmpkShow(sv)
 	if !okRes {
 		res.Fails = append(res.Fails, PropFail{Sig: "cmp/error-on-wellformed-input", Msg: fmt.Sprintf("stored %s %s %s: %s", a[1], op, l.text, out)})
 		return res
@@ -588,7 +619,7 @@ func execCmpkCmp(a []string) Result {
 			cls = cmpkClass(kind, sv, l.text, op)
 		}
 		res.Fails = append(res.Fails, PropFail{Sig: "cmp/" + cls,
-			Msg: fmt.Sprintf("search clause: stored %s (%s, value %s) %s literal %s (value %s): engine says %v, comparison by value says %v [cell %s-%s]", a[1], kind, svs, op, l.text, lv.RatString(), got, want, kind, cmpkLitForm(l.text))})
+			Msg: fmt.Sprintf("search clause: stored %s (%s, value %s) %s literal %s (value %s): engine says %v, comparison by value says %v [cell %s-%s]", a[1], kind, svs, op, l.text, cmpkShow(lv), got, want, kind, cmpkLitForm(l.text))})
 	}
 	// (2) range index of the block holding just this value
 	if len(r.ranges) > 0 && sv != nil {
@@ -599,8 +630,8 @@ func execCmpkCmp(a []string) Result {
 			res.Tags = append(res.Tags, "range:skip")
 		}
 		if !pass && want {
-			res.Fails = append(res.Fails, PropFail{Sig: "range-skip-unsound/" + cmpkClass(kind, sv, l.text, op),
-				Msg: fmt.Sprintf("block range index built by the writer for the single value %s (%s) says SKIP for %s %s although the value satisfies the comparison (value %s vs %s)", a[1], kind, op, l.text, svs, lv.RatString())})
+			res.Fails = append(res.Fails, PropFail{Sig: "range-skip-unsound/" + cmpkRangeClass(kind, sv, l.text),
+				Msg: fmt.Sprintf("block range index built by the writer for the single value %s (%s) says SKIP for %s %s although the value satisfies the comparison (value %s vs %s)", a[1], kind, op, l.text, svs, cmpkShow(lv))})
 		}
 	}
 	// (3) where stage on the same pair (numeric fields, spellings the SPL grammar accepts)
